@@ -19,7 +19,7 @@ RULE = ("histories of 1..60 operations (demand writes, child supply / utilisatio
         "adjustment that spawned or released a child; distinct = distinct canonical case JSON")
 ASSUMPTIONS = ["the hatchery is a set: its iteration order is an input of the model (taken from the implementation before each adjustment)",
                "factory children have positive initial demand (otherwise the real code's assertion fails; compared as an error)",
-               "exact arithmetic (Fractions)"]
+               "exact arithmetic (Fractions); requests that differ from a release threshold by 1e-10 .. 1e-15 relative are part of the histories"]
 TRUSTED = ["CPython sorted() stability, set/WeakSet semantics, gc.collect() for dropping released children", "trio MockClock"]
 
 FIELDS = ["supply", "utilisation", "allocation", "demand"]
@@ -48,7 +48,10 @@ def gen_case(rng, nops):
     spawned = 0
     for _ in range(nops):
         r = rng.random()
-        if r < 0.3:
+        if r < 0.06:
+            # a request that misses "exactly one child too many" by a hair, in either direction
+            ops.append(["Dnear", rng.randint(0, 7), rng.choice([1, 1, -1]), rng.choice([10 ** 10, 10 ** 12, 10 ** 15])])
+        elif r < 0.3:
             ops.append(["D", wire(q(rng, 0, 30))])
         elif r < 0.6:
             ops.append(["adj"])
@@ -120,6 +123,17 @@ def impl(case):
                     if err:
                         obs.append("error")
                         break
+                elif op[0] == "Dnear":
+                    act = sorted((c for c in fp._hatchery if c.demand > 0), key=lambda c: c.cid)
+                    if not act:
+                        continue
+                    dc = F(act[op[1] % len(act)].demand)
+                    del act        # (no stray references: released children must stay collectable)
+                    val = sum((F(x.demand) for x in fp._hatchery), F(0)) - dc + op[2] * dc / op[3]
+                    if val < 0:
+                        continue
+                    fp.demand = val
+                    trace.append(["D", wire(val)])
                 elif op[0] == "D":
                     fp.demand = unwire(op[1])
                     trace.append(op)
